@@ -122,10 +122,12 @@ PRetry(e) ==
                     \o GoalChecks(e, "O6"))
   /\ UNCHANGED <<pre, tgt, op, estM, estI, k>>
 
-\* the uninterrupted operation returned success: e.n = number of mutating system calls it made
+\* the operation ran to its end: e.n = number of mutating system calls it made.  e.second = 0: the
+\* uninterrupted operation returned success (O5); e.second = 1: this process WAS the repetition of an
+\* interrupted operation (its own crash states are states after a second crash), so its end is judged as O6
 PEnd(e) ==
   /\ bad' = Failing(<< <<e.n # k, "seq">> >> \o StateChecks(e, TRUE, estI) \o FreshChecks(e, TRUE, estI)
-                    \o GoalChecks(e, "O5"))
+                    \o GoalChecks(e, IF e.second = 1 THEN "O6" ELSE "O5"))
   /\ UNCHANGED <<pre, tgt, op, estM, estI, k>>
 
 PUnknown == bad' = <<"unknown-event">> /\ UNCHANGED <<pre, tgt, op, estM, estI, k>>
